@@ -204,12 +204,15 @@ def search(ctx, seeds):
 class FailingStream(io.BytesIO):
     """accepts `budget` bytes, then raises on write (a full disk / closed pipe)"""
 
-    def __init__(self, budget):
+    def __init__(self, budget, once=False):
         super().__init__()
         self.budget = budget
+        self.once = once          # a transient fault: only the first offending write fails
+        self.failed = 0
 
     def write(self, b):
-        if self.tell() + len(b) > self.budget:
+        if self.tell() + len(b) > self.budget and not (self.once and self.failed):
+            self.failed += 1
             raise OSError("no space left on device (harness)")
         return super().write(b)
 
